@@ -274,7 +274,11 @@ LatentInterval(ts, iv) ==
       roll == AbsMin(f0) <= AbsMin(ts)
       f1 == IF roll THEN AddDays(f0, 1) ELSE f0
       t1 == IF roll THEN AddDays(t0, 1) ELSE t0
-      t2 == IF AbsMin(t1) <= AbsMin(f1) THEN AddDays(t1, 1) ELSE t1           \* INTENDED(C07)
+      \* INTENDED(C07): an end that is not after the start wraps exactly as on an explicit date
+      \* (ruleDateInterval): 12 hours later for the implicit am->pm case, else the next day
+      t2 == IF AbsMin(t1) > AbsMin(f1) THEN t1
+            ELSE IF iv.f.H <= 12 /\ iv.t.H <= 12 /\ iv.f.H >= iv.t.H THEN AddMinutes(t1, 720)
+            ELSE AddDays(t1, 1)
   IN MkInterval(DateTime(f1.y, f1.m, f1.d, f1.H, f1.M), DateTime(t2.y, t2.m, t2.d, t2.H, t2.M))
 
 Postprocess(ts, v) ==
